@@ -1148,21 +1148,23 @@ def randcap(nrand, ra, dec, rad, get_radius=False, dorot=False, rng=None):
         cosr = cos(rand_r)
 
         cospsi = cos(rand_posangle)
+        sinpsi = sin(rand_posangle)
         costheta2 = costheta * cosr + sintheta * sinr * cospsi
 
-        np.clip(costheta2, -1, 1, costheta2)
+        # sin(theta2)*sin(Dphi) and sin(theta2)*cos(Dphi) from the sine and
+        # cosine rules.  Using arctan2 rather than arccos keeps full
+        # precision for small radii and for points next to the poles, and
+        # is defined for a point exactly on a pole
+        sDphi = sinpsi * sinr
+        cDphi = sintheta * cosr - costheta * sinr * cospsi
 
-        # gives [0,pi)
-        theta2 = arccos(costheta2)
-        sintheta2 = sin(theta2)
+        # gives [0,pi]
+        theta2 = np.arctan2(np.hypot(sDphi, cDphi), costheta2)
 
-        cosDphi = (cosr - costheta * costheta2) / (sintheta * sintheta2)
+        # signed: positive for position angles in [0,pi]
+        Dphi = np.arctan2(sDphi, cDphi)
 
-        np.clip(cosDphi, -1, 1, cosDphi)
-        Dphi = arccos(cosDphi)
-
-        # note fancy usage of where
-        phi2 = np.where(rand_posangle > PI, phi + Dphi, phi - Dphi)
+        phi2 = phi - Dphi
 
         np.rad2deg(phi2, phi2)
         np.rad2deg(theta2, theta2)
@@ -1273,13 +1275,14 @@ def rotate(phi, theta, psi, ra, dec):
 
     b = -sintheta * cbsa + costheta * sb
 
-    (w,) = np.where(b > 1.0)
-    if w.size > 0:
-        b[w] = 1.0
+    # the other two components of the rotated unit vector
+    ynew = costheta * cbsa + sintheta * sb
+    xnew = cb * cos(a)
 
-    dec_out = arcsin(b)
+    # arctan2 rather than arcsin(b) keeps full precision next to the poles
+    dec_out = arctan2(b, np.hypot(xnew, ynew))
 
-    a = arctan2(costheta * cbsa + sintheta * sb, cb * cos(a))
+    a = arctan2(ynew, xnew)
     ra_out = (a + psi + fourpi) % twopi
 
     rad2deg(ra_out, out=ra_out)
